@@ -56,6 +56,13 @@ class Ctx:
             self._callgraph, self._res_stats = build_callgraph(self.prog)
         return self._callgraph
 
+    def kinds(self):
+        """string-kind inference (object names vs. object paths), shared by the C16 rules"""
+        if getattr(self, "_kinds", None) is None:
+            from .kinds import Kinds
+            self._kinds = Kinds(self)
+        return self._kinds
+
     def call_resolution_stats(self):
         if self._res_stats is None:
             try:
